@@ -2,8 +2,8 @@
 # round2.sh <props...>: confirm round-2 mutants under /tmp/mut2 and try them against their own property's quick check
 cd /verif
 for c in "$@"; do for k in 1 2; do
-  r=$(tools/confirm_mutant.sh /tmp/mut2/$c $k 2>&1)
+  r=$(tools/confirm_mutant.sh ${MUTROOT:-/tmp/mut2}/$c $k 2>&1)
   a=$(echo "$r" | grep -c "clean-demo : test result: ok"); b=$(echo "$r" | grep -c "33 passed"); m=$(echo "$r" | grep -c "mutant-demo: test result: FAILED")
-  t=$(SHOW=1 tools/try_mutant.sh /tmp/mut2/$c/_out/patch$k.diff $c 2>&1 | grep -E "^== |first verdict|^  [a-z]" | head -2 | tr '\n' ' ')
+  t=$(SHOW=1 tools/try_mutant.sh ${MUTROOT:-/tmp/mut2}/$c/_out/patch$k.diff $c 2>&1 | grep -E "^== |first verdict|^  [a-z]" | head -2 | tr '\n' ' ')
   echo "$c m$k confirm(clean-ok=$a suite-ok=$b mutant-fails=$m) :: $t"
 done; done
